@@ -56,6 +56,13 @@ def query_script(kind, path, queries, analyze=True):
 def parse_output(out):
     res = {}
     for line in out.split("\n"):
+        if not line.startswith("R "):
+            # the solvers print progress without a newline ("Iteration(5) R q0 ...")
+            i = line.find(" R q")
+            j = line.find(" R done")
+            k = min([x for x in (i, j) if x >= 0], default=-1)
+            if k >= 0:
+                line = line[k + 1:]
         if line.startswith("R "):
             t = line.split()
             if t[1] == "done":
